@@ -1659,6 +1659,46 @@ def nesting_fragments():
     return [("nesting", "", frags)]
 
 
+def callcycle_fragments():
+    """Call CYCLES of every length 1..6 among plain function definitions (round 5, seed C18_I: the recursion guard
+    looked only at the last two entries of the definition chain, so a cycle of three or more definitions recursed
+    until RecursionError): direct recursion, k functions calling each other in a ring (entered at the first and at a
+    middle member), a ring reached through a non-member, rings through a method, two rings sharing a member."""
+    frags = []
+    n = [0]
+
+    def ring(k, enter=0, via=None):
+        n[0] += 1
+        tag = "r%d_" % n[0]
+        names = ["%sf%d" % (tag, i) for i in range(k)]
+        lines = []
+        for i, name in enumerate(names):
+            nxt = names[(i + 1) % k]
+            lines.append("def %s(count):\n    if count <= 0:\n        return 0\n    return 1 + %s(count - 1)\n" % (name, nxt))
+        start = names[enter % k]
+        if via:
+            lines.append("def %sstart(count):\n    return %s(count)\n" % (tag, start))
+            start = "%sstart" % tag
+        lines.append("print(%s(4))\n" % start)
+        return "".join(lines)
+    for k in range(1, 7):
+        frags.append(ring(k))
+        if k > 1:
+            frags.append(ring(k, enter=k // 2))
+            frags.append(ring(k, via=True))
+    n[0] += 1
+    t = "r%d_" % n[0]
+    frags.append(("class %sNode:\n    def first(self, count):\n        if count <= 0:\n            return 0\n        return self.second(count - 1)\n"
+                  "    def second(self, count):\n        return self.third(count)\n    def third(self, count):\n        return self.first(count)\n"
+                  "print(%sNode().first(3))\n") % (t, t))
+    n[0] += 1
+    t = "r%d_" % n[0]
+    frags.append(("def %sa(count):\n    if count <= 0:\n        return 0\n    return %sb(count - 1) + %sc(count - 1)\n"
+                  "def %sb(count):\n    return %sa(count)\ndef %sc(count):\n    return %sd(count)\ndef %sd(count):\n    return %sa(count)\n"
+                  "print(%sa(3))\n") % ((t,) * 10))
+    return [("callcycle", "", frags)]
+
+
 def pack_fragments(groups, individually=False, chunk=40):
     """[(group, head, [fragment, ...])] -> [(origin, code)].  Packed: the fragments of a group one after the other
     (at most `chunk` per program); individually: one program per fragment."""
@@ -1679,7 +1719,7 @@ def boundary_programs(table_progs, individually=False, full=False):
     """-> (must-complete [(origin, code)], only-must-return [(origin, code)])"""
     arity, star = table_arity_fragments(table_progs)
     groups = (index_fragments(full) + arity + user_arity_fragments() + unpack_fragments() + annotation_fragments()
-              + receiver_fragments(table_progs) + nesting_fragments())
+              + receiver_fragments(table_progs) + nesting_fragments() + callcycle_fragments())
     return pack_fragments(groups, individually), pack_fragments(star, individually)
 
 
